@@ -257,6 +257,8 @@ def op_member_probe(sim, cl, variant, i, k):
     y, x = k % w['h'], (k // 8) % w['w']
 
     def an(t):
+        if t in ('Hidden', 'NoneGridObject'):
+            return (t,)
         return {'Floor': ('Floor',), 'Wall': ('Wall',), 'Exit': ('Exit', 'NONE'), 'Door': ('Door', 'OPEN', 'NONE'), 'Key': ('Key', 'NONE'),
                 'MovingObstacle': ('MovingObstacle',), 'Box': ('Box', ('Floor',)), 'Telepod': ('Telepod', 'NONE'), 'Beacon': ('Beacon', 'NONE')}[t]
 
@@ -270,9 +272,9 @@ def op_member_probe(sim, cl, variant, i, k):
                     row.append(('Floor',))
                 w['w'] += 1
         elif variant == 'undeclared_type':
-            if not undeclared:
-                return
-            w['cells'][y][x] = an(undeclared[k % len(undeclared)])
+            # the placeholder types are object types too: a state holding one is outside any space that does not declare it
+            cand = undeclared + ['Hidden', 'NoneGridObject']
+            w['cells'][y][x] = an(cand[k % len(cand)])
         elif variant == 'agent_outside':
             w['agent'][0], w['agent'][1] = [(-1, x), (w['h'], x), (y, -1), (y, w['w'])][k % 4]
         elif variant == 'held_undeclared':
@@ -303,9 +305,8 @@ def op_member_probe(sim, cl, variant, i, k):
         ow['cells'].append([('Hidden',)] * ow['w'])
         ow['h'] += 1
     elif v == 'undeclared_type':
-        if not oundeclared:
-            return
-        ow['cells'][y][x] = an(oundeclared[k % len(oundeclared)])
+        cand = oundeclared + ['NoneGridObject']  # Hidden is always allowed in an observation grid, NoneGridObject is not
+        ow['cells'][y][x] = an(cand[k % len(cand)])
     elif v == 'undeclared_colour':
         if not ucol:
             return
